@@ -254,7 +254,7 @@ class BaseTriage(BaseTest):
     def step(self):
         self.outcomes = {k: np.array([], dtype=int) for k in self.product.hierarchy}
         accept_inds = ss.uids()
-        if self.sim.t in self.timepoints: accept_inds = self.deliver() # TODO: not robust for timestep
+        if self.sim.ti in self.timepoints: accept_inds = self.deliver() # TODO: not robust for timestep
         return accept_inds
 
 
